@@ -65,13 +65,13 @@ def note_growth(eng, ctx, p, segs):
 
 
 def m_capacity(eng, ctx, f, path, args, dty):
-    """Vec::capacity: at least the largest length the buffer has had (clear/truncate keep the allocation), at most twice that
-    (amortised doubling) or a small constant"""
+    """Vec::capacity: the largest length the buffer has had (clear/truncate keep the allocation). The real capacity lies between
+    that and twice that (amortised doubling); the model takes the lower end, so that a behaviour that depends on a large capacity is
+    only reported when the history really grew the buffer that far (and then reproduces natively)."""
     b = bytes_at(eng, ctx, args[0])
     hw = ctx.statics.get(_hw_key(args[0]), z3.IntVal(0))
-    cap = fresh_len(eng, 0, 1 << 42, "capacity")
-    ctx.pc.append(z3.And(cap >= total(b.data), cap >= hw, cap <= z3.If(2 * hw > 64, 2 * hw, 64)))
-    return cap
+    t = total(b.data)
+    return z3.If(hw > t, hw, t)
 
 
 def m_shrink(eng, ctx, f, path, args, dty):
